@@ -5,7 +5,7 @@ seeds = [int(x) for x in sys.argv[1].split(",")] if len(sys.argv) > 1 else [1]
 for s in seeds:
     for i in ids:
         t0 = time.time()
-        p = subprocess.run(["/verif/check", i], env=dict(os.environ, VERIF_SEED=str(s)), stdout=subprocess.PIPE, stderr=subprocess.STDOUT, text=True)
+        p = subprocess.run([os.path.join(os.path.dirname(os.path.dirname(os.path.abspath(__file__))), "check"), i], env=dict(os.environ, VERIF_SEED=str(s)), stdout=subprocess.PIPE, stderr=subprocess.STDOUT, text=True)
         v = [l[:150] for l in p.stdout.splitlines() if l.startswith("VIOLATION")]
         k = sum(1 for l in p.stdout.splitlines() if l.startswith("KNOWN-FINDING"))
         print("seed %d %s rc=%d %.0fs known=%d %s" % (s, i, p.returncode, time.time() - t0, k, v), flush=True)
